@@ -88,6 +88,6 @@ Proof. vm_compute. reflexivity. Qed.
 Example C03_sample_context : Inv [] c_sample.
 Proof. exact Inv_c_sample. Qed.
 Example C03_sample_agrees :
-  mout t_sample c_sample = Some (B "Hi BOB: 0,1,2 a|b&lt; adult B 42/7"%string, Some EInterrupt) /\
-  rout t_sample c_sample = (B "Hi BOB: 0,1,2 a|b&lt; adult B 42/7"%string, SExit).
+  mout t_sample c_sample = Some (B "Hi BOB: 0,1,2 a|b&lt; adult B bob nonick 42/7"%string, Some EInterrupt) /\
+  rout t_sample c_sample = (B "Hi BOB: 0,1,2 a|b&lt; adult B bob nonick 42/7"%string, SExit).
 Proof. vm_compute. split; reflexivity. Qed.
